@@ -797,6 +797,30 @@ where
                 let base = vv;
                 let mut r: Vec<i64> = Vec::new();
                 let mut addrs: Vec<usize> = Vec::new();
+                // n = 1: the requests are unsized borrowed keys that share their start address (where the key type has such a form)
+                let classes: Vec<u32> = ev.ks.iter().take(4).map(|c| *c as u32).collect();
+                let unsized_res = if ev.n == 1 { K::get_many_unsized(m, &classes) } else { None };
+                if let Some(res) = unsized_res {
+                    for (i, o) in res.into_iter().enumerate() {
+                        match o {
+                            Some(v) => {
+                                // SAFETY: the references returned by get_many_mut are distinct live entries of `m`
+                                unsafe { (*v).set_v(base + i as u32) };
+                                addrs.push(v as usize);
+                                r.push(1);
+                            }
+                            None => {
+                                addrs.push(0);
+                                r.push(0);
+                            }
+                        }
+                    }
+                    for a in addrs {
+                        r.push(if a == 0 { -1 } else { m.verif_index_of(a as *const u8).map(|x| x as i64).unwrap_or(-2) });
+                    }
+                    ev.r = r;
+                    return;
+                }
                 macro_rules! gm {
                     ($n:expr, $arr:expr) => {{
                         let res: [Option<&mut V>; $n] = m.get_many_mut($arr);
